@@ -13,4 +13,22 @@ TEXT = {
   "note": "family bounded (<= 3 abstract types, <= 7 concrete classes, <= 3 fields); expansion-depthing minima judged on list/union/tuple-free grammars only",
   "technique": "TLA+ model checking of the analysis operators against the enumerated language + replay of generated hierarchies into extract_grammar with TLC comparing the projections",
  },
+ "C12": {
+  "level": "TLC explores the tracker / search-loop specification (GEEvaluation, GEAlgorithms) over every fitness history of small value sets for the loop shapes of the four algorithms, single and multi objective, both directions, and checks BestIsBest, FlagExact and ReturnsBest as invariants; TLC-generated histories are then replayed through the real trackers and real searches and every recorded registration / return is validated by TLC against the same operators.",
+  "ref": "DESIGN.md section 4 C12",
+  "note": "integer-valued fitness; individuals identified through a delegating Representation; histories bounded (length 5/7 over 3 values)",
+  "technique": "TLA+ model checking (TLC) of the tracker state machine + replay of TLC-generated histories into the real trackers/searches with trace validation",
+ },
+ "C13": {
+  "level": "TLC checks AtMostOnce / CountHonest on the search-loop specification for all histories and ParallelEqualsSequential on the parallel-evaluator specification for ALL worker schedules (with a completion-order pairing variant that must fail); real searches and direct calls of both evaluators on identical populations are recorded (fitness invocations logged across processes) and validated by TLC: recorded fitness = fitness function on the individual's program, aggregate rule, at most one invocation per individual, counter = invocations, parallel store = sequential store.",
+  "ref": "DESIGN.md section 4 C13",
+  "note": "real worker scheduling is perturbed, not controlled; exhaustive schedules are model-level only",
+  "technique": "TLA+ model checking (TLC) of evaluator/tracker + all-schedules model of the pool + trace validation of recorded evaluator calls",
+ },
+ "C14": {
+  "level": "TLC checks the stop rule (verdict = budget predicate, nothing evaluated after a positive check, at most one batch between checks, total within [n, n+batch)) as invariants / action property and termination as a liveness property under weak fairness (plus a no-fresh-individual variant that must produce a lasso); every budget check of real searches (4 algorithms, evaluation / target / disjunction budgets, step compositions) is recorded through a delegating SearchBudget and validated by TLC.",
+  "ref": "DESIGN.md section 4 C14",
+  "note": "termination of the implementation is observed by a watchdog; wall-clock budgets excluded",
+  "technique": "TLA+ model checking (TLC, safety + liveness) of the search loop + trace validation of recorded budget checks",
+ },
 }
